@@ -93,6 +93,9 @@ class Ctx:
         self.snap_base = {}                    # name -> exact key at creation
         self.probes = {}
         self.model_state = {}                  # for O5 store model etc.
+        self.kept = []                         # (record, raw result, exact key at return time) for O6
+        self.fingerprints = set()
+        self._watch = None
         for name, obj in self.pool.items():
             self.watch("p:" + name, obj)
         self._install_fs()
@@ -142,8 +145,13 @@ class Ctx:
 
 
 def snapshot(obj):
-    """public state of a pool object, as canonical form"""
-    return C.canon(obj)
+    """public state of a pool object, as canonical form; dictionaries keep their insertion order here
+    (the order of a value dictionary is meaningful to the library: it fixes the order of the states)"""
+    C.KEEP_ORDER[0] = True
+    try:
+        return C.canon(obj)
+    finally:
+        C.KEEP_ORDER[0] = False
 
 
 # --------------------------------------------------------------------------- seams
@@ -160,7 +168,13 @@ class Seam:
         if ctx.mode == "history":
             for n in step.get("nested", []) or []:
                 self.nested.setdefault(n["at"], []).extend(n["steps"])
-        self.used = bool(step.get("wrap", False)) or bool(self.nested)
+        self.raise_at = None
+        f = step.get("fault") if ctx.mode == "history" else None
+        if f and f.get("kind") == "seam-raise":
+            self.raise_at = int(f.get("at", 0))
+            self.raise_exc = INJECTED.get(f.get("exc", "interrupt"), INJECTED["interrupt"])()
+        self.raised = False
+        self.used = bool(step.get("wrap", False)) or bool(self.nested) or self.raise_at is not None
 
     def wrap(self, default):
         if not self.used:
@@ -183,6 +197,11 @@ class Seam:
                         exec_step(ctx, s, host=seam.step["id"])
                 finally:
                     ctx.depth -= 1
+            if seam.raise_at is not None and n == seam.raise_at:
+                # a user-supplied callable (solver, input signal, mapper, dump function) may raise
+                seam.raised = True
+                seam.ctx.events.append(("seam-raise", seam.step["id"], n))
+                raise seam.raise_exc()
             return default(*a, **kw)
         return wrapper
 
@@ -234,7 +253,7 @@ def exec_step(ctx, step, host=None):
     fault = step.get("fault") if ctx.mode == "history" else None
     rec = {"id": step["id"], "op": step["op"], "client": step.get("client"), "host": host, "depth": ctx.depth}
     seam = Seam(ctx, step)
-    io_fault = fault if fault and fault.get("kind") not in ("interrupt",) else None
+    io_fault = fault if fault and fault.get("kind") not in ("interrupt", "seam-raise") else None
     ctx.disk.arm(step["id"], io_fault)
     tracer = None
     status = "ok"
@@ -245,6 +264,8 @@ def exec_step(ctx, step, host=None):
     try:
         if fault and fault.get("kind") == "interrupt":
             tracer = Tracer(int(fault["k"]), fault.get("exc", "interrupt"))
+            ds = sys.modules.get("schemdraw.drawing_stack")
+            ds_saved = (dict(ds.drawing_stack), ds.pause) if ds is not None else None
             old = sys.gettrace()
             sys.settrace(tracer.global_trace)
             try:
@@ -265,6 +286,12 @@ def exec_step(ctx, step, host=None):
         res = e
         status = "exc"
     fired = ctx.disk.disarm()
+    if seam.raised and status != "skip":
+        if status != "interrupted":
+            rec["after_injection"] = status if status != "exc" else "exc:" + type(res).__name__
+        status = "interrupted"
+        res = None
+        rec["seam_raise"] = {"at": seam.raise_at, "exc": fault.get("exc", "interrupt")}
     if tracer is not None and tracer.fired_at is not None and status != "skip":
         # the injected exception fired: whatever the library made of it (propagated, translated into another
         # exception, or swallowed), this step has no counterpart in a fault-free world
@@ -273,6 +300,15 @@ def exec_step(ctx, step, host=None):
             ctx.probe("injected_exception_translated_or_swallowed")
         status = "interrupted"
         res = None
+        # schemdraw's `with Drawing()` block is not exception safe (an exception raised while an element is being
+        # constructed makes __exit__ fail before it pops the drawing): the cut leaves THIRD-PARTY global state
+        # behind, which no listed property speaks about.  The simulator puts that state back (and counts it).
+        ds = sys.modules.get("schemdraw.drawing_stack")
+        if ds is not None and ds_saved is not None and (dict(ds.drawing_stack) != ds_saved[0] or ds.pause != ds_saved[1]):
+            ds.drawing_stack.clear()
+            ds.drawing_stack.update(ds_saved[0])
+            ds.pause = ds_saved[1]
+            ctx.probe("schemdraw_stack_restored_after_injected_exception")
     if tracer is not None:
         rec["interrupt"] = {"k": tracer.k, "lines": tracer.count, "at": list(tracer.fired_at) if tracer.fired_at else None,
                             "exc": fault.get("exc", "interrupt")}
@@ -298,6 +334,11 @@ def exec_step(ctx, step, host=None):
                 rec["result"] = ["handle", type(res).__name__, C.canon(res)]
         else:
             rec["result"] = C.canon(res)
+        if ctx.mode == "history" and status == "ok" and not callable(res):
+            try:
+                ctx.kept.append((rec, res, C.exact_key(C.canon(res))))
+            except Exception:
+                pass
         if spec.model is not None and ctx.mode == "history":
             try:
                 with model_sandbox():
@@ -314,8 +355,62 @@ def exec_step(ctx, step, host=None):
     o2 = ctx.check_o2()
     if o2:
         rec["o2"] = o2
+    if ctx.mode == "history":
+        fp = module_fingerprint(ctx)
+        if fp not in ctx.fingerprints:
+            if ctx.fingerprints:
+                rec["module_state_changed"] = True
+                ctx.probe("module_state_changed")
+            ctx.fingerprints.add(fp)
     ctx.records.append(rec)
     return rec
+
+
+WATCH = [
+    ("CircuitCalculator.Network.transformers", ["remove_short_circuit_elements", "short_circuitify_voltage_sources", "open_circuitify_current_sources",
+                                                 "remove_ideal_current_sources", "remove_ideal_voltage_sources", "passive_network"]),
+    ("CircuitCalculator.Network.NodalAnalysis.state_space_model", ["state_space_matrices", "nodal_state_space_model"]),
+    ("CircuitCalculator.Circuit.circuit", ["transform"]),
+    ("CircuitCalculator.Circuit.impedance", ["open_circuit_impedance", "element_impedance"]),
+    ("CircuitCalculator.Circuit.state_space_model", ["state_space_model"]),
+]
+TABLES = [
+    ("CircuitCalculator.Circuit.transformers", "transformers"), ("CircuitCalculator.Network.loaders", "network_branch_translators"),
+    ("CircuitCalculator.Circuit.dump_load", "circuit_component_translators"), ("CircuitCalculator.dump_load", "serializers"),
+    ("CircuitCalculator.dump_load", "deserializers"), ("CircuitCalculator.SignalProcessing.periodic_functions", "fourier_series_mapping"),
+    ("CircuitCalculator.SignalProcessing.periodic_functions", "periodic_functions"),
+]
+
+
+def module_fingerprint(ctx):
+    """informational watch list (never a violation by itself): default-argument objects of the functions that
+    have mutable defaults, the module-level tables, numpy's error state and schemdraw's drawing stack depth"""
+    import numpy as np
+    parts = []
+    for mod, names in WATCH:
+        m = sys.modules.get(mod)
+        for n in names:
+            f = getattr(m, n, None) if m else None
+            d = getattr(f, "__defaults__", None)
+            parts.append((mod, n, C.exact_key(C.canon(list(d))) if d else None))
+    for mod, name in TABLES:
+        m = sys.modules.get(mod)
+        t = getattr(m, name, None) if m else None
+        parts.append((mod, name, sorted(map(str, t.keys())) if isinstance(t, dict) else (len(t) if t is not None else None)))
+    parts.append(("numpy.geterr", sorted(np.geterr().items())))
+    ds = sys.modules.get("schemdraw.drawing_stack")
+    parts.append(("drawing_stack", len(ds.drawing_stack) if ds else 0))
+    # number of module-level names per library module: a new module global (a cache) shows up here
+    for name in sorted(sys.modules):
+        if name.startswith("CircuitCalculator."):
+            m = sys.modules[name]
+            sizes = []
+            for k, v in sorted(vars(m).items()):
+                if not k.startswith("__") and isinstance(v, (dict, list, set)):
+                    sizes.append((k, len(v)))
+            if sizes:
+                parts.append((name, sizes))
+    return C.exact_key(parts)
 
 
 class model_sandbox:
@@ -342,6 +437,15 @@ def run_history(plan):
     ctx = Ctx(plan, "history")
     for s in plan["steps"]:
         exec_step(ctx, s)
+    # O6: a result handed to the caller must not change afterwards (the caller never touches it)
+    for rec, res, key in ctx.kept:
+        try:
+            now = C.exact_key(C.canon(res))
+        except Exception as e:
+            now = "canon-failed:" + type(e).__name__
+        if now != key:
+            rec["o6"] = True
+    ctx.probes["module_fingerprints"] = len(ctx.fingerprints)
     return {"records": ctx.records, "events": [list(map(_ev, e)) for e in ctx.events], "probes": ctx.probes,
             "disk_probes": ctx.disk.probes, "open_handles": ctx.disk.open_handles}
 
